@@ -360,6 +360,57 @@ func c13StdGraphs() ([]c13Input, map[string]string) {
 			}
 		}
 	}
+	// deep call graphs with shared callees (the reachability walk of the unused-function removal must not
+	// revisit them): Fibonacci-style, layered, long chains; in the main file and in an imported file
+	{
+		fib := func(n int) string {
+			var b strings.Builder
+			b.WriteString("never := false\nfunc F0() int {\n\treturn 0\n}\nfunc F1() int {\n\tif never {\n\t\treturn F0()\n\t}\n\treturn 1\n}\n")
+			for i := 2; i < n; i++ {
+				fmt.Fprintf(&b, "func F%d() int {\n\tif never {\n\t\treturn F%d() + F%d()\n\t}\n\treturn %d\n}\n", i, i-1, i-2, i)
+			}
+			return b.String()
+		}
+		layers := func(depth, width int) string {
+			var b strings.Builder
+			b.WriteString("never := false\n")
+			for l := 0; l < depth; l++ {
+				for w := 0; w < width; w++ {
+					fmt.Fprintf(&b, "func L%dw%d() int {\n", l, w)
+					if l > 0 {
+						b.WriteString("\tif never {\n\t\treturn 0")
+						for k := 0; k < width; k++ {
+							fmt.Fprintf(&b, " + L%dw%d()", l-1, k)
+						}
+						b.WriteString("\n\t}\n")
+					}
+					fmt.Fprintf(&b, "\treturn %d\n}\n", l)
+				}
+			}
+			return b.String()
+		}
+		chain := func(n int) string {
+			var b strings.Builder
+			b.WriteString("func C0() int {\n\treturn 0\n}\n")
+			for i := 1; i < n; i++ {
+				fmt.Fprintf(&b, "func C%d() int {\n\treturn C%d() + 1\n}\n", i, i-1)
+			}
+			return b.String()
+		}
+		graphs := map[string][2]string{
+			"fib-60":       {fib(60), "F59"},
+			"fib-200":      {fib(200), "F199"},
+			"layers-3x30":  {layers(30, 3), "L29w0"},
+			"layers-5x12":  {layers(12, 5), "L11w4"},
+			"chain-300":    {chain(300), "C299"},
+		}
+		for _, gk := range sortedKeys(map[string]string{"fib-60": "", "fib-200": "", "layers-3x30": "", "layers-5x12": "", "chain-300": ""}) {
+			g := graphs[gk]
+			out = append(out, c13Input{key: "config/callgraph/" + gk + "/main", files: map[string]string{"main.tsh": g[0] + "print(" + g[1] + "())\n"}})
+			out = append(out, c13Input{key: "config/callgraph/" + gk + "/imported", files: map[string]string{"main.tsh": "import g \"graph.tsh\"\n\nprint(g." + g[1] + "())\n", "graph.tsh": g[0]}})
+			out = append(out, c13Input{key: "config/callgraph/" + gk + "/unused", files: map[string]string{"main.tsh": g[0] + "print(1)\n"}})
+		}
+	}
 	// a chain of 40 local files and a chain that closes on its first member
 	for _, closed := range []bool{false, true} {
 		files := map[string]string{}
@@ -383,7 +434,7 @@ func c13StdGraphs() ([]c13Input, map[string]string) {
 }
 
 func checkC13(c *Check) {
-	c.Rule = "hostile inputs fed to the real Transpile in child worker processes (recover + death/hang detection + isolated confirmation): all single-token edits (delete, duplicate, swap, truncate, replace by 66 representative lexemes) of a corpus of valid programs (sampled in the quick tier), random double edits, random bytes / token-alphabet bytes / token soups, semantic near-misses (void and multi-value calls at every operand position, malformed headers and literals), an argument matrix (52 operand positions of builtins, indexing forms and statements x 40 kinds of expression), the cells of C06's typing table and C07's scope table (every typed position x every kind of offered expression; every statement at every site), control-flow/definition statements placed in all pairs of 14 enclosing contexts (open and already closed loops, switch cases, functions, branches), configurations (missing/empty/directory main file, broken imports, all 512 import graphs over three files incl. self- and mutual imports, all 16 graphs over two modules of the std directory in both import styles reached from the main file and from a local library, chains of 40 files); oracle = result-shape predicate (exactly one of script / error, non-empty error text, no panic, no worker death, return within the bound) for both targets. Non-trivial = every input; distinct = SHA-256 of the input files"
+	c.Rule = "hostile inputs fed to the real Transpile in child worker processes (recover + death/hang detection + isolated confirmation): all single-token edits (delete, duplicate, swap, truncate, replace by 66 representative lexemes) of a corpus of valid programs (sampled in the quick tier), random double edits, random bytes / token-alphabet bytes / token soups, semantic near-misses (void and multi-value calls at every operand position, malformed headers and literals), an argument matrix (52 operand positions of builtins, indexing forms and statements x 40 kinds of expression), the cells of C06's typing table and C07's scope table (every typed position x every kind of offered expression; every statement at every site), control-flow/definition statements placed in all pairs of 14 enclosing contexts (open and already closed loops, switch cases, functions, branches), configurations (missing/empty/directory main file, broken imports, all 512 import graphs over three files incl. self- and mutual imports, all 16 graphs over two modules of the std directory in both import styles reached from the main file and from a local library, chains of 40 files, call graphs with shared callees: Fibonacci-style up to 200 functions, layered 3x30 and 5x12, chains of 300); oracle = result-shape predicate (exactly one of script / error, non-empty error text, no panic, no worker death, return within the bound) for both targets. Non-trivial = every input; distinct = SHA-256 of the input files"
 	c.Assumptions = []string{"termination bound: 20 s in a loaded worker, then 90 s alone in a fresh worker; a hit is reported only after the isolated confirmation (normal cost is milliseconds)", "worker stack limit 256 MiB so that unbounded recursion dies quickly"}
 	runProbes(c, bashProbeJudge)
 	r := rand.New(rand.NewSource(c.Seed*13000027 + 3))
